@@ -205,7 +205,7 @@ def check(ck):
         ck.ob(R1, pq.key(None, tag), ok, "%s (witness string %r parses into its parts)" % (tag, witness) if ok else
               "%s violated: for %r %s" % (tag, witness, why), pq.where(ms[0]))
     rets = pq.returns()
-    okg = bool(rets) and all(A.norm(r.value) == "match.groupdict()" for r in rets)
+    okg = bool(rets) and all(pq.xnorm(r.value).startswith(("re.match(", "re.fullmatch(")) and pq.xnorm(r.value).endswith(").groupdict()") for r in rets)
     ck.ob(R1, pq.key(None, "groupdict"), okg, "the parts are the named groups" if okg else "parse_qualified_name does not return match.groupdict()", pq.where())
 
     # ---- R2
@@ -357,19 +357,27 @@ def check(ck):
           "%s raised while looking the function up escapes from_qualified_name: a removed / renamed dependency makes stored metadata unreadable" % sorted(esc), fq.where(fcall))
     # the fallback is taken when the handler fires
     ub = fq.calls("UnboundExternalMementoFunction")
-    okf = len(ub) == 1 and any(A.norm(s) == "external = True" for s in A.walk_body(fq.node) if isinstance(s, ast.Assign))
+    okf = len(ub) == 1
+    if okf:
+        gi = fq.enclosing(ub[0], ast.If)
+        flag = gi.test.id if gi is not None and isinstance(gi.test, ast.Name) else None
+        hbodies = [st for t_ in fq.stmts(ast.Try) if any(fq.inside(fcall, b) for b in t_.body) for h in t_.handlers for st in h.body]
+        okf = flag is not None and any(isinstance(st, ast.Assign) and A.norm(st.targets[0]) == flag and A.norm(st.value) == "True" for st in hbodies)
     ck.ob(R3, fq.key(None, "fallback"), okf, "a failed lookup constructs the unbound external stub" if okf else
           "from_qualified_name no longer falls back to UnboundExternalMementoFunction", fq.where())
     # (b) asserts on the fallback path under the call-site bindings
     if ub:
         call = ub[0]
         binding = {}
-        parse_env = {"cluster_name": MAYBE, "module": NOTNONE, "function_name": NOTNONE, "version": MAYBE,
-                     "partial_args": MAYBE, "partial_kwargs": MAYBE, "parameter_names": MAYBE}
+        # nullability of a parse result comes from the pattern: `module` and `function` are
+        # mandatory groups (shape check above), `cluster` and `version` optional
+        at_call = fq.nodes(call)[0]
         for k in call.keywords:
             v = k.value
             if isinstance(v, ast.Name):
-                binding[k.arg] = parse_env.get(v.id, MAYBE)
+                xv = fq.xnorm(v, at_call)
+                mandatory = shape is not None and xv.startswith("FunctionReference.parse_qualified_name(") and xv.endswith(("['module']", "['function']"))
+                binding[k.arg] = NOTNONE if mandatory else MAYBE
             elif isinstance(v, ast.IfExp) and "is not None" in A.norm(v.test):
                 binding[k.arg] = NOTNONE
             elif isinstance(v, ast.Constant):
